@@ -586,6 +586,87 @@ def r06_6(rep: Report) -> None:
                  'duration: a static manifest then mis-describes the (unmodified) stored media', st)
 
 
+def r06_7(rep: Report) -> None:
+    """list entries handed to the templates are not changed after they were listed: in the
+    Representation.generate* methods an object that was appended to a result list is not written to
+    (`x.attr = ..`, `x.attr += ..`) until the name is bound to a new object.  Otherwise every entry of
+    the list is the same object and shows the values of the last run of segments."""
+    from ..flow import Disjunctive
+    rid = 'R06.7'
+    tree = rep.repo.tree(REP)
+    cls = need(find_class(tree, 'Representation'), 'Representation')
+    fns = [f for c_, f in rep.repo.expanded_functions(REP) if c_ is cls and f.name.startswith('generate')]
+    if len(fns) < 3:
+        raise AnalysisError('Representation.generate* methods not found')
+    for fn in fns:
+        c = f'{REP}::Representation.{fn.name}'
+        appended_any = [0]
+        bad: list = []
+
+        def gen(st):
+            return []
+
+        class Dom(MustFacts):
+            def transfer(self, st, s):
+                s = set(s)
+                # writes to an object that is already listed
+                tgts = []
+                if isinstance(st, ast.Assign):
+                    tgts = st.targets
+                elif isinstance(st, (ast.AugAssign, ast.AnnAssign)):
+                    tgts = [st.target]
+                for t in tgts:
+                    if isinstance(t, ast.Attribute) and isinstance(t.value, ast.Name) and ('listed', t.value.id) in s:
+                        bad.append((st, t.value.id))
+                for t in tgts:
+                    for x in ast.walk(t):
+                        if isinstance(x, ast.Name) and isinstance(x.ctx, ast.Store):
+                            s.discard(('listed', x.id))
+                if isinstance(st, ast.For):
+                    for x in ast.walk(st.target):
+                        if isinstance(x, ast.Name):
+                            s.discard(('listed', x.id))
+                for n in ast.walk(st) if not isinstance(st, (ast.If, ast.While, ast.For, ast.With, ast.Try)) else []:
+                    if isinstance(n, ast.Call) and isinstance(n.func, ast.Attribute) and n.func.attr == 'append' \
+                            and n.args and isinstance(n.args[0], ast.Name):
+                        s.add(('listed', n.args[0].id))
+                        appended_any[0] += 1
+                return frozenset(s)
+
+            def join(self, a, b):           # may-analysis: listed on some path
+                return frozenset(a) | frozenset(b)
+
+            def leq(self, a, b):
+                return frozenset(a) <= frozenset(b)
+
+            def widen(self, old, new):
+                return frozenset(old) | frozenset(new)
+        dataclasses = {k.name for k in tree.body if isinstance(k, ast.ClassDef)
+                       and any('dataclass' in norm(d) for d in k.decorator_list)}
+
+        def may_raise(st: ast.stmt) -> bool:
+            # binding a name to a freshly built dataclass instance from names / constants cannot raise
+            if isinstance(st, (ast.Assign, ast.AnnAssign)) and isinstance(getattr(st, 'value', None), ast.Call) \
+                    and isinstance(st.value.func, ast.Name) and st.value.func.id in dataclasses \
+                    and all(isinstance(a, (ast.Name, ast.Constant)) for a in st.value.args) \
+                    and all(isinstance(k.value, (ast.Name, ast.Constant)) for k in st.value.keywords):
+                tg = st.targets[0] if isinstance(st, ast.Assign) else st.target
+                return not isinstance(tg, ast.Name)
+            return True
+        Flow(Dom(gen), raises=may_raise).run(fn, frozenset())
+        if not appended_any[0]:
+            continue
+        if not bad:
+            rep.ok(rid, c, 'listed entries are not modified afterwards')
+        else:
+            st, var = bad[0]
+            rep.fail(rid, c, 'listed entries are not modified afterwards',
+                     f'`{short(st, 60)}` writes to `{var}` after it was appended to the result without binding '
+                     f'`{var}` to a new object: all entries of the list are one object and render the values of '
+                     'the last run (durations / repeat counts of a static manifest no longer describe the '
+                     'stored fragments)', st)
+
+
 def analyse(rep: Report) -> None:
     rep.explanation = (
         'Conventions that the static manifests and the media endpoint must share: the inclusive '
@@ -598,6 +679,7 @@ def analyse(rep: Report) -> None:
     rep.rule('R06.3', 'numbers outside first..last are refused on every path', floor=3)
     rep.rule('R06.5', 'static addressing: number and file index differ by start_number - 1', floor=2)
     rep.rule('R06.6', 'a static SegmentTimeline lists the stored fragment durations (no live correction)', floor=1)
+    rep.rule('R06.7', 'entries of the generated segment lists are distinct objects, not modified once listed', floor=2)
     rep.rule('R06.4', 'indexer clock: start = previous end or tfdt, end = start + sample durations', floor=6)
     r06_1(rep)
     r06_2(rep)
@@ -605,3 +687,4 @@ def analyse(rep: Report) -> None:
     r06_4(rep)
     r06_5(rep)
     r06_6(rep)
+    r06_7(rep)
